@@ -96,6 +96,20 @@ def run(ctx):
     commands(ctx, c)
 
 
+def run_expr(ctx):
+    """the expression writer alone (R05.1 / R05.2): shared with C02, whose verdict is only as exact as the SMT encoding of every operator"""
+    ctx.rule("R05.1", "sort discipline: for every variant, typing-consistent 1-bit pattern and parent requirement, the written term is well-sorted under SMT-LIB with 1-bit values as Bool (exhaustive finite model)")
+    ctx.rule("R05.2", "each variant is written with the SMT-LIB operator its meaning requires; Bool operators only under the 1-bit condition")
+    t0 = T0(ctx)
+    t1 = T1(ctx, t0)
+    c = ctx.facts.lib("patronus")
+    f = ctx.fn("patronus", S + "serialize_expr")
+    model = extract_model(ctx, c, f, t0)
+    if model is not None:
+        evaluate(ctx, model, t0, t1)
+        meaning(ctx, model, t0)
+
+
 def set_of(ctx, name, t0):
     """the set of Expr variants for which the bool function `name` answers true (evaluated per variant)"""
     f = ctx.fn("patronus", S + name)
